@@ -320,6 +320,9 @@ impl Real {
 /// Replays a system + drive history on a fresh real executor and a fresh model
 /// in lock-step. Err(description) on the first disagreement.
 fn replay_history(system: &[Vec<Act>], hist: &[Drive]) -> Result<Model, String> {
+    let _guard = case_guard(
+        json!({"system": fmt_sys(system), "drive": hist.iter().map(|d| format!("{d:?}")).collect::<Vec<_>>()}).to_string(),
+    );
     let r = catch(|| {
         let real = Real::new();
         let mut m = Model::default();
